@@ -80,3 +80,64 @@ theorem and_predicate_pure (input : Array Nat) (maxCnt : Nat) (custom : Nat → 
   exact ⟨this.trace, this.cfg⟩
 
 end DS.Props.C03
+
+namespace DS.Props.C03
+open DS.Peg
+
+/-- **A cached parse result is used only under the parse flags it was obtained under** (repair 8d3cac5): whatever a look-ahead
+    concluded before the flags were switched (the unrestricted look-ahead over the value of an st edit) cannot answer a question asked
+    under the new flags. -/
+theorem memo_hit_same_flags (m : Std.HashMap (Nat × Nat) (Bool × Nat × Flags)) (key : Nat × Nat) (cfg : Flags) (b : Bool) (e : Nat)
+    (h : memoGet m key cfg = some (b, e)) : m[key]? = some (b, e, cfg) := by
+  unfold memoGet at h
+  split at h
+  · rename_i b' e' fl heq
+    split at h
+    · rename_i hfl
+      injection h with h; injection h with h1 h2
+      subst h1; subst h2; subst hfl
+      exact heq
+    · cases h
+  · cases h
+
+/-- … and an entry stored under other flags is no hit -/
+theorem memo_other_flags_miss (m : Std.HashMap (Nat × Nat) (Bool × Nat × Flags)) (key : Nat × Nat) (cfg fl : Flags) (b : Bool) (e : Nat)
+    (hm : m[key]? = some (b, e, fl)) (hne : fl ≠ cfg) : memoGet m key cfg = none := by
+  unfold memoGet
+  rw [hm]
+  simp [hne]
+
+/-- **The line-break predicate of the statement separator** (repair a715f46) answers yes exactly when, walking back from the offset,
+    a line feed is met before any byte that is not a blank: the separator the statement's last token has already consumed. -/
+theorem lineBreakBefore_spec (env : Env) : ∀ (pos : Nat), lineBreakBefore env pos = true →
+    ∃ i, i < pos ∧ env.input[i]! = 10 ∧ ∀ j, i < j → j < pos → (env.input[j]! = 32 ∨ env.input[j]! = 9 ∨ env.input[j]! = 13) := by
+  intro pos
+  induction pos with
+  | zero => intro h; simp [lineBreakBefore] at h
+  | succ n ih =>
+    intro h
+    simp only [lineBreakBefore] at h
+    split at h
+    · rename_i h10
+      exact ⟨n, by omega, by simpa using h10, fun j h1 h2 => by omega⟩
+    · rename_i h10
+      split at h
+      · rename_i hb
+        obtain ⟨i, hi, hin, hbl⟩ := ih h
+        refine ⟨i, by omega, hin, ?_⟩
+        intro j h1 h2
+        by_cases hj : j = n
+        · subst hj
+          simp only [Bool.or_eq_true, beq_iff_eq] at hb
+          rcases hb with (hb | hb) | hb
+          · exact Or.inl hb
+          · exact Or.inr (Or.inl hb)
+          · exact Or.inr (Or.inr hb)
+        · exact hbl j h1 (by omega)
+      · cases h
+
+/- non-vacuity: `'a'⏎y` — at offset 4 (the `y`) the blanks before it hold the line feed; at offset 3 of `1 +2` they do not -/
+example : lineBreakBefore (DS.Props.C16.envOf #[39, 97, 39, 10, 121] 0 (fun _ => 0)) 4 = true := by decide
+example : lineBreakBefore (DS.Props.C16.envOf #[49, 32, 43, 50] 0 (fun _ => 0)) 3 = false := by decide
+
+end DS.Props.C03
